@@ -360,7 +360,7 @@ func cmdRun(args []string) int {
 			sh := (i + int(seed%int64(workers)) + workers) % workers
 			cmd := exec.Command("sh", "-c", fmt.Sprintf("ulimit -v 12000000; exec %s -check %s -tier %s -shard %d -nshards %d -budget %g -out %s", bin, id, tier, sh, workers, budget, out))
 			marker := filepath.Join(w, fmt.Sprintf("marker_%d", i))
-			cmd.Env = append(os.Environ(), "GOMAXPROCS=1", "GOMEMLIMIT=1536MiB", "GOGC=400", "VERIF_MARKER="+marker)
+			cmd.Env = append(os.Environ(), "GOMAXPROCS=1", "GOMEMLIMIT=2GiB", "GOGC=400", "VERIF_MARKER="+marker)
 			var eb bytes.Buffer
 			cmd.Stderr = &eb
 			cmd.Stdout = &eb
